@@ -68,7 +68,7 @@ def main():
             pass
 
     if not skip:
-        wt = f'/tmp/seedchk_{prop}_{which}'
+        wt = f'/tmp/seedchk_{prop}_{which}{suffix}'
         run(f'git -C /repo worktree remove --force {wt}')
         rc, o, _ = run(f'git -C /repo worktree add -q {wt} HEAD')
         try:
@@ -112,7 +112,7 @@ def main():
         target = '/repo'
         rc, o, _ = run(f'git -C /repo apply {patch}')
     else:
-        target = f'/tmp/seedrun_{prop}_{which}'
+        target = f'/tmp/seedrun_{prop}_{which}{suffix}'
         run(f'git -C /repo worktree remove --force {target}')
         run(f'git -C /repo worktree add -q {target} HEAD')
         rc, o, _ = run(f'git apply {patch}', cwd=target)
@@ -123,7 +123,7 @@ def main():
     res['checks_run_against'] = target
     try:
         for c in checks:
-            od = '' if inplace else f'VX_OUT_DIR=/tmp/seedout_{prop}_{which} '
+            od = '' if inplace else f'VX_OUT_DIR=/tmp/seedout_{prop}_{which}{suffix} '
             rc, o, t = run(f'{od}VERIF_REPO={target} /verif/bin/vx check {c} -tier {tier}', cwd='/verif', timeout=3600)
             lines = [l for l in o.splitlines() if l.startswith(('VIOLATION', 'OK ', 'INCONCLUSIVE', 'KNOWN', '  violation', '  panic', '  deadlock'))]
             res['checks'][c] = {'tier': tier, 'exit': rc, 'detected': rc == 1, 's': round(t), 'lines': lines[:8]}
@@ -133,7 +133,7 @@ def main():
         else:
             run(f'git -C /repo worktree remove --force {target}')
             shutil.rmtree(target, ignore_errors=True)
-            shutil.rmtree(f'/tmp/seedout_{prop}_{which}', ignore_errors=True)
+            shutil.rmtree(f'/tmp/seedout_{prop}_{which}{suffix}', ignore_errors=True)
     return finish(res, out)
 
 
